@@ -34,10 +34,10 @@ LEVEL_TEXT = ("Two parts. (1) PROOF, for all legal histories of any length (Lean
               "(noop_flags_nothing, settings_only_transaction_keeps_flags); for removal: when start and end of the route "
               "lie on the same side of a side's line the as-coded point minimises the detour over that side for every "
               "norm-like length over any ordered field (removal_estimate_min_horizontal/_vertical) and the test flags "
-              "whenever a path through a point of that side would be shorter (removal_flag_complete_same_side, "
-              "removal_complete_shorter_path_same_side; removal_estimate_repaired_min: with |b|, |d| the condition is not "
+              "whenever a path through a point of that side would be shorter (removal_flag_complete, "
+              "removal_complete_shorter_path; removal_estimate_repaired_min: with |b|, |d| the condition is not "
               "needed); new_scene_obstacle_cases, txnOf_spec, touched_or_blocked_edge_flags, skip_sound_route_valid_rect and skip_sound_scene (assembled on runPasses; conclusion = RouteValid of C03), contains_incremental_eq_scratch (Router::contains maintained by the three loops has its from-scratch meaning); without "
-              "that condition the estimate is only a heuristic - removal_estimate_incomplete_witness is a closed scene "
+              "that condition the estimate is only a heuristic - removal_witness_flagged is a closed scene "
               "in which a strictly shorter obstacle-free route opens and nothing is flagged (replayed against the C++: "
               "harness --only 1000002, a genuine defect w.r.t. the property text); estLess_sound: the driver's three-valued "
               "comparison never contradicts an exact one. TIE per processed transaction of every history: the model's "
